@@ -58,6 +58,12 @@ func lemmas() []lemma {
 	ls = append(ls, lemma{"intfloat-eq", decl8 + "(assert (not (= (fp.eq " + f32("a") + " " + f32("b") + ") (= a b))))"})
 	ls = append(ls, lemma{"intfloat-round", decl8 + "(assert (not (= (fp.roundToIntegral RTZ " + f32("a") + ") " + f32("a") + ")))"})
 	ls = append(ls, lemma{"intfloat-to-sbv", decl8 + "(assert (not (= ((_ fp.to_sbv 16) RTZ " + f32("a") + ") ((_ sign_extend 8) a))))"})
+	for _, z := range []string{"(_ +zero 8 24)", "(_ -zero 8 24)"} {
+		ls = append(ls, lemma{"intfloat-addsub-zero", decl8 + "(assert (not (and (= (fp.add RNE " + f32("a") + " " + z + ") " + f32("a") + ") (= (fp.sub RNE " + f32("a") + " " + z + ") " + f32("a") + "))))"})
+	}
+	ls = append(ls, lemma{"intfloat-mul-zero", decl8 + `(assert (not (and
+		(= (fp.mul RNE ` + f32("a") + ` (_ -zero 8 24)) (ite (bvslt a #x00) (_ +zero 8 24) (_ -zero 8 24)))
+		(= (fp.mul RNE ` + f32("a") + ` (_ +zero 8 24)) (ite (bvslt a #x00) (_ -zero 8 24) (_ +zero 8 24))))))`})
 	ls = append(ls, lemma{"intfloat-neg", decl8 + `(assert (not (= (fp.neg ` + f32("a") + `) (ite (= a #x00) (_ -zero 8 24) ` + f32("(bvneg ((_ sign_extend 1) a))") + `))))`})
 	ls = append(ls, lemma{"intfloat-div", decl8 + `(assert (not (= b #x00)))
 		(assert (not (= ((_ fp.to_sbv 16) RTZ (fp.div RNE ` + f32("a") + " " + f32("b") + `)) ((_ sign_extend 7) (bvsdiv ((_ sign_extend 1) a) ((_ sign_extend 1) b))))))`})
